@@ -243,7 +243,16 @@ impl<'a> DocGen<'a> {
             self.budget -= 1;
             match self.rng.below(20) {
                 0..=7 => self.element(depth + 1, out, false),
-                8..=12 => out.push_str(&self.text()),
+                8..=12 => {
+                    // two text pieces in a row are one text node for the parser: they must not form `]]>` together
+                    let mut t = self.text();
+                    let tail_brackets = out.chars().rev().take_while(|c| *c == ']').count();
+                    let lead_brackets = t.chars().take_while(|c| *c == ']').count();
+                    if tail_brackets + lead_brackets >= 2 && t[lead_brackets..].starts_with('>') && (tail_brackets > 0) {
+                        t.insert(lead_brackets, ' ');
+                    }
+                    out.push_str(&t)
+                }
                 13 => out.push_str(&format!("<!--{}-->", self.comment_data())),
                 14 => out.push_str(&self.pi()),
                 15 | 16 => out.push_str(&format!("<![CDATA[{}]]>", self.cdata())),
